@@ -106,6 +106,7 @@ def run(tier):
         o["op"] = "oneshot"
         o["hist"] = e["hist"]
         o["i"] = 10 ** 6 + k
+        o["orig_i"] = e["i"]
         oneshots.append(o)
     by_hist = {}
     for e in evs + oneshots:
@@ -152,7 +153,19 @@ def run(tier):
             sub.append(o)
         _, bad2, _, _ = vlib.validate_traces(chk.work, "TraceHist", "TraceHist.cfg", [sub], timeout=3000)
         if b["why"] not in {x["why"] for x in bad2}:
-            raise vlib.Inconclusive("unreproduced rejection: %s" % k)
+            # state shared by the whole process (not only by this history): replay every job the original process had run up to that event,
+            # in a fresh process, and validate this event's history (plus its one-shot) from that run
+            upto = ev.get("orig_i", ev["i"]) if ev["op"] == "oneshot" else ev["i"]
+            prefix = full[:upto]
+            subp = [e for e in vlib.run_drive(drive, prefix, chk.work, name="repro-proc") if e.get("hist") == ev["hist"]]
+            if ev["op"] == "oneshot":
+                subp.append(sub[-1])
+            _, bad3, _, _ = vlib.validate_traces(chk.work, "TraceHist", "TraceHist.cfg", [subp], timeout=3000)
+            if b["why"] not in {x["why"] for x in bad3}:
+                raise vlib.Inconclusive("unreproduced rejection: %s" % k)
+            chk.report(k, "%s: %s (only after the %d calls the same process made before it)" % (k, b["why"], upto), dict(jobs=prefix, expect=b["why"], hist=ev["hist"],
+                       oneshot=(onedim.strip(ev) if ev["op"] == "oneshot" else None)))
+            continue
         chk.report(k, "%s: %s (history of %d calls)" % (k, b["why"], len(hist)), dict(jobs=hist, expect=b["why"]))
     chk.sample(dict(history_prefix=[dict(sym=e["sym"], api=e["api"], p=e["p"], content_len=len(e["content"]), pxdigest=e["res"].get("pxdigest", "")[:16]) for e in enc[:6]]))
     chk.assumptions += ["observations are SHA-256 digests of the pixel classes plus every accessor, computed by the Go projection", "non-determinism with probability far below 1/observations is out of reach of a trace-based method"]
@@ -166,6 +179,12 @@ def replay(path):
     hit = []
     for attempt in range(r.get("attempts", 1)):
         evs = vlib.run_drive(drive, r["jobs"], chk.work)
+        if r.get("hist") is not None:
+            evs = [e for e in evs if e.get("hist") == r["hist"]]
+        if r.get("oneshot"):
+            o = vlib.run_drive(drive, [dict(r["oneshot"], op="encode", hid=0)], chk.work, name="shot")[0]
+            o["op"] = "oneshot"
+            evs.append(o)
         _, bad, _, _ = vlib.validate_traces(chk.work, "TraceHist", "TraceHist.cfg", [evs])
         hit = [b for b in bad if b["why"] == r.get("expect", b["why"])]
         if hit:
